@@ -5,6 +5,20 @@ props = [json.loads(l) for l in open(os.path.join(VERIF, "properties.jsonl"))]
 ids = [p["id"] for p in props]
 
 CHECKS = {
+ "C05": dict(
+   text="Proof: props/C05.v (closed). For every renaming with distinct old names and every incoming dictionary, the model of "
+        "Structure.update_params delivers under each key exactly the specified value (rename_shield_spec); hence renaming is independent "
+        "of the order in which the pairs are listed — swaps and chains included (rename_simultaneous), a renamed parameter is controlled "
+        "only through its new name and its old name is shielded (old_name_shielded), untouched names pass, nested placements compose "
+        "(rename_compose); precedence at a model (arriving value, else model default), at a solver (add_param definition, else explicit "
+        "value, else solver default) and for add_param arguments (explicit, else CURRENT solver default, else default at definition). The "
+        "as-found sequential loop is formally refuted (rename_asfound_refuted, swap witness = finding F03). The tie builds hierarchies of "
+        "solvers whose leaves are probes (transmission = parameter value), random injective renamings incl. swaps/chains in every "
+        "listing order, defaults at all levels before/after add_param, explicit values, and compares the value each leaf used.",
+   note="Trusted: Coq kernel + vm_compute; model Params.v (incl. the recursive delivery through hierarchies, which is modelled and tied "
+        "by correspondence; the declarative 'resolve' specification for whole hierarchies is not separately proved); harness. Follows the "
+        "fixed code (F03, F04).",
+   technique="Coq proof (renaming/precedence laws for all dictionaries) + vm_compute correspondence on probe hierarchies", design="§5 C05"),
  "C12": dict(
    text="Proof: props/C12.v. For every graph of structures (trees, cycles, multiply linked pairs, isolated structures) and every "
         "declaration order, the model of split()'s incremental union returns pairwise disjoint sets that cover exactly the structures "
